@@ -196,6 +196,18 @@ def rule_p2(ctx, F):
                         "so a concurrent loader or a crash sees a half-written library" % (name, tvar, "; ".join(other[:3])))
             else:
                 ctx.ok("P2", "%s:temp-local-is-only-the-temp-path" % name, "`%s` has no definition other than temp_path(%s)" % (tvar, targ))
+        # the published library is replaced by the rename alone: nothing removes it first (between the unlink and the rename
+        # a concurrent loader finds no library — or, with nothing left to load, recompiles under a lock it does not hold)
+        wrong = []
+        for pt2, c2, d2 in calls_named(fn, "fs::remove_file") + calls_named(fn, "fs::remove_dir_all") + calls_named(fn, "fs::remove_dir"):
+            r = trace_root(fn, c2["a"][0]) if c2.get("a") else None
+            if r is not None and r == dst:
+                wrong.append("%s(%s)" % (c2.get("fn"), r))
+        if wrong:
+            ctx.bad("P2", "%s:only-the-temp-file-is-removed" % name, "%s removes the final output path itself (%s): the installed library must be replaced atomically by the rename, never unlinked first"
+                    % (name, "; ".join(wrong[:3])))
+        else:
+            ctx.ok("P2", "%s:only-the-temp-file-is-removed" % name, "no fs::remove_* in %s is given the final path `%s` (%d removal(s) of `%s`)" % (name, dst, len(rem), tvar))
         s = Search(fn, PublishMonitor(fn, [pt], rem, n_tools), budget=3000000)
         v = s.run((0, False))
         if v is None:
